@@ -17,7 +17,13 @@ from pathlib import Path
 
 VERIF = Path(__file__).resolve().parent.parent
 SPEC = VERIF / "spec"
-WORK = VERIF / "out" / "work"
+# one scratch directory per process: concurrent checks (other properties, other trees, other tiers) never share TLC work files
+WORK = VERIF / "out" / "work" / f"p{os.getpid()}"
+
+
+def cleanup_work():
+    if not os.environ.get("VERIF_KEEP_WORK"):
+        shutil.rmtree(WORK, ignore_errors=True)
 JARS = "/opt/veriftools/tla/tla2tools.jar:/opt/veriftools/tla/CommunityModules-deps.jar"
 
 
